@@ -28,18 +28,18 @@ enum Sig {
 }
 
 fn run_composite(case: &crate::checks::composite::CompositeCase, rec: &mut Rec) -> CheckResult {
-    use crate::checks::composite::{all_comps, attack_nodes, label_of, layout, text};
+    use crate::checks::composite::{attack_nodes, label_of, layout, text};
     use crustabri::io::{AspartixReader, Iccma23Reader, InstanceReader};
     let lay = layout(case);
     if lay.n == 0 {
         return Ok(());
     }
     rec.eval();
-    let comps = all_comps(case);
-    let fams: Vec<Fams> = comps.iter().map(|g| Fams::new(&G::new(g.n, &g.att_usize()))).collect();
+    let reference = crate::checks::composite::reference(case);
+    let fams = &reference.fams;
     let sig_of = |node: usize| -> Sig {
         let (c, l) = lay.comp_of[node];
-        let v: Vec<bool> = fams[c].co.iter().map(|e| e & (1 << l) != 0).collect();
+        let v: Vec<bool> = fams[c].co.iter().map(|e| e & (1u64 << l) != 0).collect();
         if v.iter().all(|b| *b) {
             Sig::InAll
         } else if v.iter().all(|b| !*b) {
